@@ -368,6 +368,57 @@ def tracing_level_floor(ctx):
                   'and every issued identifier is the same' % c.ln, 'guarded by level != / > MIN_TRACING_LEVEL', c.where())
 
 
+@rule('C17', 'setup-level-floor')
+def setup_level_floor(ctx):
+    """... and a master key is never created below that level: in setup the tracing key is built only on the edge where the
+    requested level is at least MIN_TRACING_LEVEL."""
+    from .c02 import root_descr
+    F = ctx.F
+    sb = F.fn('core::primitives::setup')
+    minv = (F.consts.get('core::MIN_TRACING_LEVEL') or {}).get('v', 1)
+    lvl = [pi for pi in range(1, sb.argc + 1) if sb.local_ty(pi) == 'usize']
+    mk = sb.calls(r'TracingSecretKey::new_with_level$')
+    ctx.check(len(mk) == 1 and len(lvl) == 1, sb.key, 'builds the tracing key once from the level', 'setup does not build the tracing key '
+              'through new_with_level(level, rng) exactly once', '', sb.where())
+    if len(mk) != 1 or len(lvl) != 1:
+        return
+    safe_edges = []
+    for cmp_ in lib.comparisons(sb):
+        ra = [r for r in root_descr(sb, cmp_['a']) if r[0] == 'param' and r[1] == lvl[0]] if is_place(cmp_['a']) else []
+        rb = [r for r in root_descr(sb, cmp_['b']) if r[0] == 'param' and r[1] == lvl[0]] if is_place(cmp_['b']) else []
+        ca, cb = lib.classify_scalar(sb, cmp_['a']), lib.classify_scalar(sb, cmp_['b'])
+        op = cmp_['op']
+        if rb and not ra:
+            op = {'Lt': 'Gt', 'Gt': 'Lt', 'Le': 'Ge', 'Ge': 'Le'}.get(op, op)
+            cc = ca
+        elif ra:
+            cc = cb
+        else:
+            continue
+        if cc[0] != 'const' or cc[1] is None:
+            continue
+        k = cc[1]
+        # level OP k  ==> edge on which level >= minv
+        edge = None
+        if op == 'Lt' and k >= minv:
+            edge = cmp_['fe']
+        elif op == 'Ge' and k >= minv:
+            edge = cmp_['te']
+        elif op == 'Le' and k >= minv - 1:
+            edge = cmp_['fe']
+        elif op == 'Gt' and k >= minv - 1:
+            edge = cmp_['te']
+        elif op == 'Eq' and k < minv and minv - k == 1 and k == 0:
+            edge = cmp_['fe']
+        elif op == 'Ne' and k == 0 and minv == 1:
+            edge = cmp_['te']
+        if edge is not None:
+            safe_edges.append(edge)
+    ctx.check(bool(safe_edges) and sb.edges_dominate(safe_edges, mk[0].b), sb.key, 'new_with_level <= level >= MIN_TRACING_LEVEL',
+              'setup builds a tracing key without having checked that the requested level is at least MIN_TRACING_LEVEL (%s): at level 0 '
+              'no marker is random and every issued identifier is the same' % minv, 'guarded by the level check', mk[0].where())
+
+
 @rule('C17', 'refreshed-id-stored', configs=('default', 'p256'))
 def refreshed_id_stored(ctx):
     """'Every issued user key is registered': refresh_id may replace the registered identifier (it deletes the old one when the
